@@ -1053,6 +1053,11 @@ class Gen:
             else:
                 raise WbxError(f"unknown sub-directive {kind}")
         edits = []
+        if f.ret and not result and spec.strip() and re.search(r"\basync\s+fn\b", text[:f.body_s]):
+            # R17b: the installed Verus also drops the `ensures` of an `async fn` at `.await` when the return value is
+            # not named; name it
+            result = "async_result"
+            bump(log, "R17b async fn: return value named so that its `ensures` reach the caller")
         if f.ret and result:
             rs, re_ = f.ret
             rt = text[rs:re_].strip()
@@ -1253,6 +1258,37 @@ class Gen:
         stmt = apply_edits(stmt, edits)
         for rule in GENERIC_RULES:
             stmt = rule(stmt, log)
+        # loop invariants / ghost preamble inside a slice (same sub-directives as for whole functions)
+        ins = []
+        pre = ""
+        for kind, arg, lines in d.subs:
+            if kind == "loop":
+                mm = re.match(r"(\d+)(?:\s+iter=(\w+))?\s*:$", arg)
+                if not mm:
+                    raise WbxError(f"bad loop directive `{arg}`")
+                loops = loop_sites(stmt)
+                n = int(mm.group(1))
+                if n >= len(loops):
+                    raise WbxError(f"lost anchor: loop {n} of slice of {name}")
+                kw, in_end, brace = loops[n]
+                if mm.group(2):
+                    if in_end is None:
+                        raise WbxError(f"loop {n} of slice of {name} is not a for loop")
+                    ins.append((in_end, f" {mm.group(2)}:"))
+                ins.append((brace, "\n" + "\n".join(lines) + "\n"))
+            elif kind == "body_start:":
+                pre = "\n".join(lines) + "\n"
+            elif kind == "before":
+                mm = re.match(r"`(.*)`\s*:$", arg)
+                if not mm:
+                    raise WbxError(f"bad anchor directive `{arg}`")
+                hits = find_tokens(stmt, mm.group(1), "before")
+                if len(hits) != 1:
+                    raise WbxError(f"lost anchor: `{mm.group(1)}` occurs {len(hits)}x in slice of {name}")
+                ins.append((hits[0][0], "\n" + "\n".join(lines) + "\n"))
+        for off, t in sorted(ins, key=lambda x: -x[0]):
+            stmt = stmt[:off] + t + stmt[off:]
+        stmt = pre + stmt
         m = re.search(r"\bfn\s+(\w+)", head)
         new_name = m.group(1)
         g0 = self.lineno()
